@@ -140,7 +140,18 @@ fn case(t: &mut Tape, st: &mut Stats, max_len: usize) -> Verdict {
             0 | 1 => {
                 // writefile / appendfile
                 let p = if t.chance(1, 6) { dirp(t) } else { file(t) };
-                let c = content(t);
+                let mut c = content(t);
+                let big = t.chance(1, 40);
+                if big {
+                    // a text whose multi-byte character straddles (or touches) a multiple of 8192 bytes
+                    let j = 1 + t.below(2);
+                    let d = t.below(4);
+                    let mut s = "a".repeat(8192 * j - d);
+                    s.push_str(t.pick(&["é", "日", "😀"]));
+                    s.push_str(&String::from_utf8(c.clone()).unwrap());
+                    c = s.into_bytes();
+                    st.class("text-with-a-multi-byte-character-at-a-multiple-of-8192-bytes");
+                }
                 let text = String::from_utf8(c.clone()).unwrap();
                 let append = op == 1;
                 cmd = if append { "appendfile" } else { "writefile" };
@@ -155,8 +166,19 @@ fn case(t: &mut Tape, st: &mut Stats, max_len: usize) -> Verdict {
                     };
                     let mut nb = old;
                     nb.extend_from_slice(&c);
+                    let whole = nb.clone();
                     m.insert(p.clone(), Node::File(nb));
-                    verdict = if ok_true(&r) { Ok(()) } else { Err(format!("expected true, got {}", show(&r))) };
+                    let mut v = if ok_true(&r) { Ok(()) } else { Err(format!("expected true, got {}", show(&r))) };
+                    if big && v.is_ok() {
+                        // what was written is what is read
+                        if let Ok(s) = String::from_utf8(whole) {
+                            let rr = exec(&mut ctx, "readfile", &[abs(&p)]);
+                            if !matches!(&rr, CommandResult::Continue(Some(x)) if *x == s) {
+                                v = Err(format!("readfile right after the write of {} bytes: expected the text written, got {}", s.len(), show(&rr).chars().take(120).collect::<String>()));
+                            }
+                        }
+                    }
+                    verdict = v;
                 } else {
                     failing_ops += 1;
                     verdict = if failed(&r) { Ok(()) } else { Err(format!("expected a failure, got {}", show(&r))) };
@@ -535,7 +557,7 @@ fn case_t(t: &mut Tape, st: &mut Stats) -> Verdict {
 pub fn property() -> Property {
     Property {
         id: "C18",
-        rule: "histories of 1..30 (thorough ..80) file operations inside a fresh tmpfs scratch directory (absolute paths only): writefile, appendfile, readfile, writebinfile+readbinfile (arbitrary bytes through handles; after a refused binary write the same data is written again to another path), touch, mkdir, cp, mv, rm (with/without -r, one or two paths), rmdir, is_path_exists / is_file / is_dir, get_file_size, glob_array root/**/*, basename, dirname, join_path; path pool of files with extensions and directories without, nested, with spaces and non-ASCII, incl. paths below a file; operations on missing paths and wrong kinds. Oracle: reference tree BTreeMap<path, Dir|File(bytes)>; after EVERY step the command output and the real directory (walked with std::fs, contents read back) are compared with the model; a failing operation must leave the tree unchanged. Non-trivial: >= 1 failing operation and a cp/mv onto an existing file or into a directory; distinct by history",
+        rule: "histories of 1..30 (thorough ..80) file operations inside a fresh tmpfs scratch directory (absolute paths only): writefile, appendfile, readfile (one write in forty is a text of 8 or 16 KiB with a multi-byte character on the 8192-byte boundary, read back at once), writebinfile+readbinfile (arbitrary bytes through handles; after a refused binary write the same data is written again to another path), touch, mkdir, cp, mv, rm (with/without -r, one or two paths), rmdir, is_path_exists / is_file / is_dir, get_file_size, glob_array root/**/*, basename, dirname, join_path; path pool of files with extensions and directories without, nested, with spaces and non-ASCII, incl. paths below a file; operations on missing paths and wrong kinds. Oracle: reference tree BTreeMap<path, Dir|File(bytes)>; after EVERY step the command output and the real directory (walked with std::fs, contents read back) are compared with the model; a failing operation must leave the tree unchanged. Non-trivial: >= 1 failing operation and a cp/mv onto an existing file or into a directory; distinct by history",
         assumptions: &[
             "outside the domain (not generated): directory sources for cp/mv, cp/mv with source == target, mv of a file to a missing target without an extension, mv into a directory that already holds an entry of that name, trailing separators, glob metacharacters in names, permissions, symlinks",
             "the output of rm on a missing path and of touch on a directory is not compared (the tree is)",
@@ -549,7 +571,7 @@ pub fn property() -> Property {
                     Tier::Thorough => Plan::Random { cases: 900_000, max_len: 400 },
                 },
                 case: case_q,
-                min_classes: &[("cp-onto-existing-file", 500), ("mv-onto-existing-file", 300), ("mv-into-directory", 300), ("rm-non-empty-directory-without-r", 300), ("binary-data-written-again-after-a-refused-write", 500)],
+                min_classes: &[("cp-onto-existing-file", 500), ("mv-onto-existing-file", 300), ("mv-into-directory", 300), ("rm-non-empty-directory-without-r", 300), ("binary-data-written-again-after-a-refused-write", 500), ("text-with-a-multi-byte-character-at-a-multiple-of-8192-bytes", 1000)],
             },
             Section {
                 name: "long-histories",
